@@ -359,7 +359,7 @@ func Run(r *corr.Run) {
 	}
 	s := &session{r: r, c: c, useModel: len(r.ModelCmd) > 0 && os.Getenv("ACL_NOMODEL") == "", prop: os.Getenv("VERIF_PROPERTY")}
 	s.runScripts()
-	walks := r.Pick(900, 40000)
+	walks := r.Pick(3000, 60000)
 	for i := 0; i < walks && r.TimeLeft(); i++ {
 		if i%7 == 6 && os.Getenv("ACL_NV") != "" {
 			// exploration only (not part of the verdict): without validation the real code can reach
